@@ -16,16 +16,28 @@ use stun_types::attribute::{AttributeType, RawAttribute};
 use stun_types::message::{IntegrityAlgorithm, Message, MessageType};
 use stun_types::TransportType;
 
-pub const NADDR: usize = 5;
+/// size of the address universe (indices are `u8` in the operations)
+pub const NADDR: usize = 256;
+/// the core addresses every generator draws from and every observation covers; the rest of the
+/// universe (indices NCORE..NADDR) is only used by the many-peers shapes and observed once touched
+pub const NCORE: usize = 8;
 pub const NTID: usize = 8;
 
 pub fn addr(i: usize) -> SocketAddr {
-    match i % NADDR {
+    let i = i % NADDR;
+    match i {
         0 => "192.0.2.1:3478".parse().unwrap(),
         1 => "192.0.2.1:3479".parse().unwrap(), // same IP, another port
         2 => "198.51.100.7:40000".parse().unwrap(),
         3 => "[2001:db8::1]:3478".parse().unwrap(),
-        _ => "[2001:db8::2]:3478".parse().unwrap(),
+        4 => "[2001:db8::2]:3478".parse().unwrap(),
+        // the IPv4-mapped IPv6 twins of #0 and #2 (what a dual-stack socket reports for an IPv4
+        // peer): different socket addresses, never to be confused with the IPv4 ones
+        5 => "[::ffff:192.0.2.1]:3478".parse().unwrap(),
+        6 => "[::ffff:198.51.100.7]:40000".parse().unwrap(),
+        7 => "[2001:db8::1]:3479".parse().unwrap(),
+        _ if i % 3 == 0 => format!("[2001:db8:77::{:x}]:{}", i, 20000 + i).parse().unwrap(),
+        _ => format!("100.64.{}.{}:{}", i / 16, i, 20000 + i).parse().unwrap(),
     }
 }
 pub fn local_addr() -> SocketAddr {
@@ -405,7 +417,7 @@ impl Tx {
 pub struct Model {
     pub tcp: bool,
     pub txs: BTreeMap<usize, Tx>,
-    pub validated: [bool; NADDR],
+    pub validated: std::collections::BTreeSet<usize>,
     pub remote: Option<usize>,
     pub next_incarnation: u64,
     pub completions: BTreeMap<u64, String>,
@@ -445,6 +457,9 @@ pub struct RunCfg {
     pub no_final_drain: bool,
     /// record the calls and replies of this run for the offline checker (if an event log is open)
     pub record: bool,
+    /// append the observed outstanding / validated sets to the reply log whenever they change
+    /// (C20 compares them between runs: they are replies of the agent too)
+    pub log_observations: bool,
 }
 
 #[derive(Clone, Debug, Default)]
@@ -455,6 +470,8 @@ pub struct RunResult {
     /// order in which simultaneously-due transactions were served, per drain
     pub orders: Vec<String>,
     pub steps: u64,
+    /// property tag of the first failed assertion of this run, if any (whatever the property being checked)
+    pub failed_tag: Option<String>,
 }
 
 pub fn base_instant() -> Instant {
@@ -479,6 +496,10 @@ struct Eng<'c> {
     step: usize,
     /// recorded call/reply events for the offline checker (tools/agentcheck.py)
     rec: Option<Vec<String>>,
+    /// address indices >= NCORE that were handed to the agent (observed from then on)
+    touched: std::collections::BTreeSet<usize>,
+    last_obs: String,
+    pending_obs: Option<String>,
 }
 
 fn ms_of(base: Instant, t: Instant) -> i128 {
@@ -499,6 +520,9 @@ impl<'c> Eng<'c> {
 
     fn fail(&mut self, tag: &str, assertion: &str, entry: &str, feature: &str, expected: String, observed: String) {
         self.failed = true;
+        if self.res.failed_tag.is_none() {
+            self.res.failed_tag = Some(format!("{tag}|{assertion}|{feature}"));
+        }
         let w = self.wit();
         // C07: "it is dropped, the transaction stays outstanding with its retransmission timing
         // unchanged".  While a transaction that had a response dropped for lack of valid integrity
@@ -510,6 +534,25 @@ impl<'c> Eng<'c> {
             return;
         }
         self.ctx.violation(tag, assertion, entry, feature, || w, expected, observed);
+    }
+
+    /// log the latest observation if it differs from the last one logged (called where the state
+    /// does not depend on the order in which simultaneously due transactions were served)
+    fn flush_obs(&mut self) {
+        if let Some(o) = self.pending_obs.take() {
+            if o != self.last_obs {
+                self.res.log.push(o.clone());
+                self.last_obs = o;
+            }
+        }
+    }
+
+    /// an address outside the core universe was handed to the agent: observe it from now on
+    fn touch(&mut self, i: usize) {
+        let i = i % NADDR;
+        if i >= NCORE {
+            self.touched.insert(i);
+        }
     }
 
     #[inline]
@@ -574,7 +617,7 @@ impl<'c> Eng<'c> {
                 }
             }
             let mut val = vec![];
-            let universe: Vec<SocketAddr> = (0..NADDR).map(addr).chain(["203.0.113.9:9".parse().unwrap(), local_addr()]).collect();
+            let universe: Vec<SocketAddr> = (0..NCORE).chain(self.touched.iter().copied()).map(addr).chain(["203.0.113.9:9".parse().unwrap(), local_addr()]).collect();
             for a in universe {
                 if self.agent.is_validated_peer(a) {
                     val.push(a.to_string());
@@ -607,15 +650,33 @@ impl<'c> Eng<'c> {
                 return;
             }
         }
-        for a in 0..NADDR {
+        let watch: Vec<usize> = (0..NCORE).chain(self.touched.iter().copied()).collect();
+        if self.cfg.log_observations {
+            let mut o = String::from("obs outstanding=");
+            for i in 0..NTID {
+                if self.agent.request_transaction(imp::tid_from_bytes(&tid_bytes(i))).is_some() {
+                    o.push_str(&format!("{i},"));
+                }
+            }
+            o.push_str(" validated=");
+            for a in &watch {
+                if self.agent.is_validated_peer(addr(*a)) {
+                    o.push_str(&format!("{a},"));
+                }
+            }
+            // not logged here: between two events of one instant the sets depend on the (free)
+            // service order; flush_obs() logs the latest observation at order-independent points
+            self.pending_obs = Some(o);
+        }
+        for a in watch {
             let got = self.agent.is_validated_peer(addr(a));
-            if got != self.model.validated[a] {
+            if got != self.model.validated.contains(&a) {
                 self.fail(
                     "C15",
                     "validated-peers",
                     "StunAgent::is_validated_peer",
                     if got { "validated-without-accepted-message" } else { "validation-lost-or-missing" },
-                    format!("{} = {}", addr(a), self.model.validated[a]),
+                    format!("{} = {}", addr(a), self.model.validated.contains(&a)),
                     format!("{got}"),
                 );
                 return;
@@ -755,6 +816,31 @@ impl<'c> Eng<'c> {
                 let tidb: Option<[u8; 12]> = if data.len() >= 20 { Some(data[8..20].try_into().unwrap()) } else { None };
                 let idx = tidb.and_then(|t| find_tid(&t));
                 let Some(i) = idx.filter(|i| self.model.txs.contains_key(i)) else {
+                    // The bytes do not name an outstanding transaction.  If a retransmission is due
+                    // right now this is that retransmission with a damaged payload (C18: "carries
+                    // byte-for-byte the serialisation of the message handed to send"); otherwise it
+                    // is a transmission nobody asked for (C05).
+                    let due: Vec<usize> = self
+                        .model
+                        .txs
+                        .iter()
+                        .filter(|(_, t)| {
+                            let (e, _l, a) = t.due();
+                            a == Action::Retransmit && e <= now
+                        })
+                        .map(|(i, _)| *i)
+                        .collect();
+                    if !due.is_empty() {
+                        self.fail(
+                            "C18",
+                            "transmit-payload",
+                            "StunAgent::poll",
+                            "retransmission-not-the-request",
+                            format!("the unmodified request of one of the transactions due for retransmission ({due:?})"),
+                            format!("SendData({} bytes {} to {to})", data.len(), hex(&data[..data.len().min(24)])),
+                        );
+                        return None;
+                    }
                     self.fail("C05", "no-ghost-transmission", "StunAgent::poll", "", "no transmission for a transaction that is not outstanding".into(), format!("SendData({} bytes, tid {:?})", data.len(), tidb.map(|t| hex(&t))));
                     return None;
                 };
@@ -859,6 +945,7 @@ impl<'c> Eng<'c> {
     }
 
     fn do_send(&mut self, kind: MsgKind, tid: u8, dest: u8, seal: Sealing, payload: u16) {
+        self.touch(dest as usize);
         let (b, bytes, sealed) = build_send(kind, tid, seal, payload);
         let now = self.now;
         let t = self.at(now);
@@ -931,6 +1018,7 @@ impl<'c> Eng<'c> {
     }
 
     fn do_handle(&mut self, bytes: Vec<u8>, from: u8, is_response: bool, tid: u8) {
+        self.touch(from as usize);
         let now = self.now;
         let from_a = addr(from as usize);
         let rp = ref_parse(&bytes);
@@ -985,7 +1073,8 @@ impl<'c> Eng<'c> {
         if !is_response {
             match r {
                 R::Incoming(t, c) if t == tid_bytes(i) && c == rp.class => {
-                    self.model.validated[from as usize % NADDR] = true;
+                    self.model.validated.insert(from as usize % NADDR);
+                    self.touch(from as usize);
                     self.ctx.count("incoming-accepted");
                 }
                 _ => self.fail("C15", "incoming-handed-back", "StunAgent::handle_stun", "", "IncomingStun(the same message)".into(), rname),
@@ -1062,7 +1151,8 @@ impl<'c> Eng<'c> {
                 }
                 self.model.txs.remove(&i);
                 self.model.completions.insert(tx.incarnation, "Delivered".into());
-                self.model.validated[from as usize % NADDR] = true;
+                self.model.validated.insert(from as usize % NADDR);
+                    self.touch(from as usize);
                 self.ctx.count("completed-delivered");
                 self.ctx.count(if tx.had_integrity { "delivered-authenticated" } else { "delivered-unauthenticated" });
             }
@@ -1080,6 +1170,7 @@ impl<'c> Eng<'c> {
     }
 
     fn step_op(&mut self, op: &Op) {
+        self.flush_obs();
         match op {
             Op::Send { kind, tid, dest, seal, payload } => self.do_send(*kind, *tid, *dest, *seal, *payload),
             Op::Poll(at) => {
@@ -1223,6 +1314,7 @@ impl<'c> Eng<'c> {
             match self.poll_once() {
                 Some(true) => self.observe(),
                 Some(false) => {
+                    self.flush_obs();
                     if let Some(w) = self.last_wait {
                         self.now = self.now.max(w);
                     } else {
@@ -1248,6 +1340,7 @@ impl<'c> Eng<'c> {
             self.fail("C05", "no-ghost-event", "StunAgent::poll", "", "WaitUntil (nothing outstanding)".into(), ev[..ev.len().min(200)].to_string());
         }
         self.observe();
+        self.flush_obs();
     }
 }
 
@@ -1284,6 +1377,9 @@ pub fn run_history(ctx: &mut Ctx, h: &History, cfg: &RunCfg) -> RunResult {
         noise: vec![],
         step: 0,
         rec: None,
+        touched: Default::default(),
+        last_obs: String::new(),
+        pending_obs: None,
     };
     if cfg.record && e.ctx.eventlog.is_some() && e.ctx.eventlog_left > 64 {
         e.rec = Some(Vec::with_capacity(64));
@@ -1312,6 +1408,8 @@ pub fn run_history(ctx: &mut Ctx, h: &History, cfg: &RunCfg) -> RunResult {
         }
     }
     e.step = ops.len();
+    // the last observation is part of the reply log even when the model check stopped the run
+    e.flush_obs();
     if !e.failed && !cfg.no_final_drain {
         e.final_drain();
     }
@@ -1397,20 +1495,20 @@ pub fn gen_history(rng: &mut Rng, len: usize, ntid: u8, emphasis: &str) -> Histo
         let w = rng.below(100);
         let op = match emphasis {
             "timing" => match w {
-                0..=14 => Op::Send { kind: MsgKind::Request, tid, dest: rng.below(5) as u8, seal: Sealing::None, payload: rng.below(600) as u16 },
+                0..=14 => Op::Send { kind: MsgKind::Request, tid, dest: rng.below(NCORE as u64) as u8, seal: Sealing::None, payload: rng.below(600) as u16 },
                 15..=29 => gen_configure(rng, tid),
                 30..=84 => gen_poll(rng),
                 85..=88 => Op::CancelRetrans(tid),
                 89..=90 => Op::Cancel(tid),
-                91..=94 => Op::Response { tid, from: rng.below(5) as u8, error: false, seal: RespSeal::Unsigned, fp: false },
+                91..=94 => Op::Response { tid, from: rng.below(NCORE as u64) as u8, error: false, seal: RespSeal::Unsigned, fp: false },
                 _ => Op::Advance(rng.below(3_000)),
             },
             "auth" => match w {
-                0..=17 => Op::Send { kind: MsgKind::Request, tid, dest: rng.below(5) as u8, seal: *rng.pick(&[Sealing::None, Sealing::Sha1, Sealing::Sha256, Sealing::Both, Sealing::Sha1]), payload: rng.below(600) as u16 },
-                18..=57 => Op::Response { tid, from: rng.below(5) as u8, error: rng.chance(1, 4), seal: gen_resp_seal(rng), fp: rng.chance(1, 3) },
+                0..=17 => Op::Send { kind: MsgKind::Request, tid, dest: rng.below(NCORE as u64) as u8, seal: *rng.pick(&[Sealing::None, Sealing::Sha1, Sealing::Sha256, Sealing::Both, Sealing::Sha1]), payload: rng.below(600) as u16 },
+                18..=57 => Op::Response { tid, from: rng.below(NCORE as u64) as u8, error: rng.chance(1, 4), seal: gen_resp_seal(rng), fp: rng.chance(1, 3) },
                 58..=65 => Op::SetRemote(rng.below(3) as u8),
                 66..=89 => gen_poll(rng),
-                90..=92 => Op::Incoming { request: rng.chance(1, 2), tid, from: rng.below(5) as u8 },
+                90..=92 => Op::Incoming { request: rng.chance(1, 2), tid, from: rng.below(NCORE as u64) as u8 },
                 93..=94 => Op::Cancel(tid),
                 95..=96 => Op::CancelRetrans(tid),
                 _ => gen_configure(rng, tid),
@@ -1419,25 +1517,25 @@ pub fn gen_history(rng: &mut Rng, len: usize, ntid: u8, emphasis: &str) -> Histo
                 0..=17 => Op::Send {
                     kind: *rng.pick(&[MsgKind::Request, MsgKind::Request, MsgKind::Request, MsgKind::Request, MsgKind::Indication, MsgKind::Success, MsgKind::Error]),
                     tid,
-                    dest: rng.below(5) as u8,
+                    dest: rng.below(NCORE as u64) as u8,
                     seal: *rng.pick(&[Sealing::None, Sealing::None, Sealing::Sha1, Sealing::Sha256, Sealing::Both]),
                     payload: rng.below(2000) as u16,
                 },
                 18..=49 => gen_poll(rng),
-                50..=69 => Op::Response { tid, from: rng.below(5) as u8, error: rng.chance(1, 4), seal: gen_resp_seal(rng), fp: rng.chance(1, 3) },
-                70..=77 => Op::Incoming { request: rng.chance(1, 2), tid, from: rng.below(5) as u8 },
+                50..=69 => Op::Response { tid, from: rng.below(NCORE as u64) as u8, error: rng.chance(1, 4), seal: gen_resp_seal(rng), fp: rng.chance(1, 3) },
+                70..=77 => Op::Incoming { request: rng.chance(1, 2), tid, from: rng.below(NCORE as u64) as u8 },
                 78..=82 => Op::Cancel(tid),
                 83..=86 => Op::CancelRetrans(tid),
                 87..=92 => gen_configure(rng, tid),
                 93..=95 => Op::SetRemote(rng.below(3) as u8),
                 96 => Op::SetLocal(rng.below(4) as u8),
-                97 => Op::SendData { dest: rng.below(5) as u8, len: rng.below(1500) as u16 },
+                97 => Op::SendData { dest: rng.below(NCORE as u64) as u8, len: rng.below(1500) as u16 },
                 _ => Op::Advance(rng.below(5_000)),
             },
         };
         ops.push(op);
     }
-    History { tcp, remote0: if rng.chance(2, 3) { Some(rng.below(3) as u8) } else { None }, remote_addr: if rng.chance(1, 3) { Some(rng.below(5) as u8) } else { None }, ops }
+    History { tcp, remote0: if rng.chance(2, 3) { Some(rng.below(3) as u8) } else { None }, remote_addr: if rng.chance(1, 3) { Some(rng.below(NCORE as u64) as u8) } else { None }, ops }
 }
 
 /// the reduced alphabet of the systematic small-scope enumeration
